@@ -22,8 +22,9 @@ type rEntry struct {
 	U   int    `json:"u"`
 	K   string `json:"k"`
 	Ref string `json:"ref"`
-	T   int    `json:"t"`
-	Tg  []int  `json:"tg"`
+	T    int    `json:"t"`
+	Tg   []int  `json:"tg"`
+	Skip bool   `json:"skip"`
 }
 
 type rScn struct {
@@ -39,8 +40,9 @@ type rScn struct {
 type rMean struct {
 	K   string `json:"k"`
 	Ref string `json:"ref"`
-	T   int    `json:"t"`  // identity of the commit named (the u of the entry that first recorded it); -1 unknown
-	Tg  []int  `json:"tg"` // positions referred to (0: not in the log)
+	T    int    `json:"t"`  // identity of the commit named (the u of the entry that first recorded it); -1 unknown
+	Tg   []int  `json:"tg"` // positions referred to (0: not in the log)
+	Skip bool   `json:"skip"`
 }
 
 type rObs struct {
@@ -67,12 +69,16 @@ type rSide struct {
 	num    int
 	tips   map[string]githash.Hash // branch -> latest recorded commit
 	ids    map[int]githash.Hash    // u -> entry id
+	byU    map[int]githash.Hash    // u -> commit first recorded by entry u
 }
 
 func (x *rSide) clone() *rSide {
-	c := &rSide{s: x.s.Clone(), rslTip: x.rslTip, num: x.num, tips: map[string]githash.Hash{}, ids: map[int]githash.Hash{}}
+	c := &rSide{s: x.s.Clone(), rslTip: x.rslTip, num: x.num, tips: map[string]githash.Hash{}, ids: map[int]githash.Hash{}, byU: map[int]githash.Hash{}}
 	for k, v := range x.tips {
 		c.tips[k] = v
+	}
+	for k, v := range x.byU {
+		c.byU[k] = v
 	}
 	for k, v := range x.ids {
 		c.ids[k] = v
@@ -101,17 +107,28 @@ func (x *rSide) add(e rEntry, label map[string]string) error {
 	switch e.K {
 	case "ref", "prop":
 		h := x.s.Handle()
-		blob, _ := h.WriteBlob([]byte(fmt.Sprintf("content of u%d\n", e.U)))
-		tree, _ := h.WriteTree([]gitstore.TreeEntry{{Path: "f", ID: blob, Kind: gitstore.KindBlob}})
-		var parents []githash.Hash
-		if p := x.tips[e.Ref]; p != nil {
-			parents = []githash.Hash{p}
+		var c githash.Hash
+		if e.T != e.U {
+			// the reference is reset to a commit recorded earlier
+			c = x.byU[e.T]
+			if c == nil {
+				return fmt.Errorf("entry u%d names commit u%d, which this side never recorded", e.U, e.T)
+			}
+		} else {
+			blob, _ := h.WriteBlob([]byte(fmt.Sprintf("content of u%d\n", e.U)))
+			tree, _ := h.WriteTree([]gitstore.TreeEntry{{Path: "f", ID: blob, Kind: gitstore.KindBlob}})
+			var parents []githash.Hash
+			if p := x.tips[e.Ref]; p != nil {
+				parents = []githash.Hash{p}
+			}
+			var err error
+			c, err = x.s.MakeCommit(tree, parents, fmt.Sprintf("commit for u%d", e.U), nil)
+			if err != nil {
+				return err
+			}
+			x.byU[e.U] = c
+			label[c.String()] = fmt.Sprintf("u%d", e.U)
 		}
-		c, err := x.s.MakeCommit(tree, parents, fmt.Sprintf("commit for u%d", e.U), nil)
-		if err != nil {
-			return err
-		}
-		label[c.String()] = fmt.Sprintf("u%d", e.U)
 		x.tips[e.Ref] = c
 		x.s.RawSetRef(fullRef(e.Ref), c)
 		text := fmt.Sprintf("RSL Reference Entry\n\nref: %s\ntargetID: %s\nnumber: %d", fullRef(e.Ref), c.String(), x.num)
@@ -129,7 +146,7 @@ func (x *rSide) add(e rEntry, label map[string]string) error {
 		for _, u := range e.Tg {
 			lines = append(lines, "entryID: "+x.ids[u].String())
 		}
-		lines = append(lines, "skip: true", fmt.Sprintf("number: %d", x.num))
+		lines = append(lines, fmt.Sprintf("skip: %v", e.Skip), fmt.Sprintf("number: %d", x.num))
 		id, err := x.appendRSL(strings.Join(lines, "\n"))
 		if err != nil {
 			return err
@@ -148,7 +165,7 @@ func rMeaning(dir string, label map[string]string) ([]rMean, error) {
 	}
 	out := []rMean{}
 	for _, e := range es {
-		m := rMean{K: e.K, Ref: strings.TrimPrefix(e.Ref, "refs/heads/"), T: 0, Tg: append([]int{}, e.Tg...)}
+		m := rMean{K: e.K, Ref: strings.TrimPrefix(e.Ref, "refs/heads/"), T: 0, Tg: append([]int{}, e.Tg...), Skip: e.Skip}
 		if e.K == "ref" || e.K == "prop" {
 			m.T = -1
 			if l, ok := label[e.Target]; ok {
@@ -188,7 +205,7 @@ func runReconcileScn(id int, scn rScn, base string) (line rLine) {
 	line = rLine{ID: id, Scn: scn}
 	fail := func(err error) rLine { line.Err = err.Error(); return line }
 	label := map[string]string{}
-	common := &rSide{s: memstore.New(), tips: map[string]githash.Hash{}, ids: map[int]githash.Hash{}}
+	common := &rSide{s: memstore.New(), tips: map[string]githash.Hash{}, ids: map[int]githash.Hash{}, byU: map[int]githash.Hash{}}
 	for _, e := range scn.C {
 		if err := common.add(e, label); err != nil {
 			return fail(err)
